@@ -110,10 +110,31 @@ def lake_build(targets, timeout=1800):
     return rc, out
 
 
+DRIVER_LASTGOOD = os.path.join(BUILD, "driver.lastgood")
+
+
 def build_driver():
+    """Builds the model driver from the current (regenerated) model.  Returns None.  If the model no longer builds - a
+    regenerated table or translated function has changed shape - and a driver built from the last model that did build
+    is at hand, that one is used for the search for a failing input (the model as it was against the code as it is) and the
+    build failure is returned as a string for the caller to report; without one, TieBroken is raised."""
+    global DRIVER
     rc, out = lake_build(["driver"])
-    if rc != 0:
-        raise TieBroken("lean-driver", tail_errors(out))
+    built = os.path.join(LEAN, ".lake", "build", "bin", "driver")
+    if rc == 0:
+        DRIVER = built
+        try:
+            tmp = DRIVER_LASTGOOD + ".%d" % os.getpid()
+            shutil.copyfile(built, tmp)
+            os.chmod(tmp, 0o755)
+            os.replace(tmp, DRIVER_LASTGOOD)
+        except OSError:
+            pass
+        return None
+    if os.path.exists(DRIVER_LASTGOOD):
+        DRIVER = DRIVER_LASTGOOD
+        return tail_errors(out)
+    raise TieBroken("lean-driver", tail_errors(out))
 
 
 def tail_errors(out, n=40):
